@@ -176,6 +176,9 @@ class C12(Prop):
             yield Case('transform', ('prefixheader', 'p_', t))
             yield Case('transform', ('suffixheader', '_s', t))
             yield Case('transform', ('sortheader', False, missing, t))
+            # headers that are in order already (ascending / descending): ragged rows are still squared up
+            hp = rng.choice([('a', 'k', 'v'), ('v', 'k', 'a'), ('a', 'k', 'v'), ('k', 'v', 'a')])
+            yield Case('transform', ('sortheader', rng.random() < 0.4, missing, (hp,) + tuple(t[1:])))
             rect = self._table(rng, ragged=False)
             yield Case('transform', ('filldown', rng.choice([(), ('k',), ('a', 'v')]), rng.choice([None, None, 'x', 'xy']), rect))
             yield Case('transform', ('fillright', rng.choice([None, None, 'x', 'xy']), t))
@@ -283,7 +286,15 @@ class C12(Prop):
         if nm in ('rename', 'setheader', 'extendheader', 'prefixheader', 'suffixheader'):
             return out == rows_in                                   # data rows untouched
         if nm == 'addrownumbers':
-            return all(o[1:] == i for o, i in zip(out, rows_in))
+            start, step = case.arg[1], case.arg[2]
+            return all(o[1:] == i and o[0] == codec.canon(start + j * step) for j, (o, i) in enumerate(zip(out, rows_in)))
+        if nm == 'sortheader' and len(set(t[0])) == len(t[0]) and not case.arg[1]:
+            # fields in sorted order, every row carrying its own cells under them, squared up with `missing`
+            # (the undocumented `reverse` argument is ignored by the code as it stands; only the documented order is judged)
+            rev, missing = case.arg[1], case.arg[2]
+            order = sorted(range(len(t[0])), key=lambda i: t[0][i])
+            want = [tuple(codec.canon(r[i] if i < len(r) else missing) for i in order) for r in t[1:]]
+            return out == want and impl_obs[1][0][1] == tuple(codec.canon(t[0][i]) for i in order)
         if nm == 'convert':
             cs = case.arg[1]
             touched = set()
